@@ -5,8 +5,9 @@ TEXTS["C01"] = {
     "text": "Every destination sample of generated resizes (all 13 pixel types, 3 back-ends, 7 filters x 3 convolution-type "
             "algorithms, all crop kinds, extreme contents) is compared with an independent f64 reference resampler under a "
             "per-sample analytic error bound that is attained (worst observed error/bound 0.99-1.00), so a one-unit bias, a "
-            "shifted window or a wrong kernel constant falls outside it. Held on the cases executed; not a proof for "
-            "unexecuted inputs.",
+            "shifted window or a wrong kernel constant falls outside it. Some cases are judged on a Resizer that has just served the sibling "
+            "algorithm, and a pool step repeats the workload with the library's rayon code in a 3-thread pool. Held on the cases executed; "
+            "not a proof for unexecuted inputs.",
     "design_ref": "DESIGN.md section 2, C01",
     "note": "Trusted: the reference model (harness/src/refmodel.rs, written from the property text) and its bound; the "
             "hook H1 only supplies coverage evidence. NEON/WASM not executed.",
@@ -24,8 +25,9 @@ TEXTS["C02"] = {
 }
 TEXTS["C07"] = {
     "text": "Metamorphic monitor: pairs of sources that differ only in (finite) colours under alpha = 0 must give identical results; zero "
-            "destination alpha implies zero colour; an opaque source gives the alpha-off result; the alpha channel equals plain resampling; "
-            "non-alpha types ignore the option. Checked on all six alpha types x three back-ends over transparent stripes, islands, "
+            "destination alpha implies zero colour; an opaque source gives the alpha-off result; the alpha channel equals plain resampling "
+            "(alpha handling off, and the alpha plane resized alone as a one-channel image); the result equals multiply -> resize -> divide; a second "
+            "frame written into the same buffer and resized by the same Resizer satisfies the relations too; non-alpha types ignore the option. Checked on all six alpha types x three back-ends over transparent stripes, islands, "
             "borders and single pixels.",
     "design_ref": "DESIGN.md section 2, C07",
     "note": "Geometries where the destination has the size of an integer crop are excluded: C12 demands a bit-exact copy there for every "
@@ -43,14 +45,16 @@ TEXTS["C10"] = {
 TEXTS["C11"] = {
     "text": "Identity-tagged sources are resized with Nearest and every destination pixel is compared bit for bit with the source pixel "
             "under its centre (index formula of the property, either neighbour only inside a stated rounding band). Sub-pixel crops flush "
-            "against the right/bottom edge are a dedicated class; the same workload also runs under AddressSanitizer and Miri so an "
+            "against the right/bottom edge, boxes of almost no extent, strips long in source and destination (extent products beyond 2^32) and "
+            "reduction factors k+0.5 for k = 1..640 are dedicated classes; the same workload also runs under AddressSanitizer and Miri so an "
             "out-of-row read is reported even if the value happens to match.",
     "design_ref": "DESIGN.md section 2, C11",
     "note": "The rounding band is 4(n+2) ulp of the coordinate; pixels inside it accept a neighbour.",
     "technique": "runtime monitoring with an index-formula oracle over identity-tagged images, under rel/ASan/Miri",
 }
 TEXTS["C12"] = {
-    "text": "Same-size resizes must return the integer crop region bit for bit for every algorithm and alpha setting; when one dimension "
+    "text": "Same-size resizes (integer crop, whole source, fit_into_destination with equal sizes; also over a destination that equals the region "
+            "except for the signs of zeros) must return the region bit for bit for every algorithm and alpha setting; when one dimension "
             "matches, each row/column of the result must equal the resize of that row/column alone (row locality, which holds iff nothing "
             "is resampled along the matching axis); SuperSampling with an intermediate of destination size must return the nearest picks.",
     "design_ref": "DESIGN.md section 2, C12",
@@ -90,7 +94,8 @@ TEXTS["C04"] = {
 TEXTS["C05"] = {
     "text": "Two-run sentinel differencing: each call is made twice over destination backing stores pre-filled with complementary patterns; "
             "a stale pixel differs between the runs, a stray write changes a sentinel outside the rectangle, a failed or zero-sized call must "
-            "leave everything untouched, the source is hashed before/after. Covers resize, alpha, mapper and change_type calls through all "
+            "leave everything untouched, the source is hashed before/after. Covers resize (incl. boxes of almost no extent), alpha (incl. images of "
+            "different size), mapper and change_type calls through all "
             "container pairs and placements, three back-ends, rayon pools of 1/2/3/8 threads, and an ASan build.",
     "design_ref": "DESIGN.md section 2, C05",
     "note": "SuperSampling multiplicity 0 is outside the property (m >= 1) and not generated here.",
@@ -100,7 +105,8 @@ TEXTS["C06"] = {
     "text": "All 65 536 8-bit (colour, alpha) pairs at every lane of rows of length 1..40 (exhaustive, every run) and, in the thorough tier, all "
             "2^32 16-bit pairs are pushed through multiply/divide on three back-ends and four entry points and compared with exact integer "
             "arithmetic (round-half-up product; floor/ceil quotient saturated at max; a=0 -> 0; alpha unchanged); float results must equal "
-            "single IEEE operations; unsupported pixel types must be rejected.",
+            "single IEEE operations; unsupported pixel types must be rejected. A patterns step puts alphas in runs and in uniform / half-uniform "
+            "blocks of 2..16 pixels on rows of every length 1..70 (also in a 3-thread pool on images tall enough to be split).",
     "design_ref": "DESIGN.md section 2, C06",
     "note": "Quick tier samples the 16-bit space (special alphas/colours exhaustively + random blocks).",
     "technique": "runtime monitoring against an exact integer-arithmetic oracle, exhaustive for 8-bit (and 16-bit in thorough)",
@@ -108,7 +114,8 @@ TEXTS["C06"] = {
 TEXTS["C08"] = {
     "text": "Resizes and alpha operations are executed in thread pools of 2..32 threads (and more threads than rows) with seeded jitter at "
             "band starts and compared bit for bit with the 1-thread run; strips up to 300 000 pixels long and 10^6 size pairs up to 2^32-1 "
-            "exercise the band-count arithmetic; the H4 hook reports the (axis, parts) splits and distinct schedules actually observed; Miri "
+            "exercise the band-count arithmetic; destinations of 4..9 MB with extents no band count divides; cropped, nested, dynamic and "
+            "user-defined containers in pools of 2/3/4/8 threads; the H4 hook reports the (axis, parts) splits and distinct schedules actually observed; Miri "
             "with the race detector runs multi-band scenarios, ThreadSanitizer in the thorough tier.",
     "design_ref": "DESIGN.md section 2, C08",
     "note": "Schedules are sampled, not enumerated. Known finding D13 (Miri retag race / Tree Borrows violation in column bands) is reported "
@@ -117,7 +124,8 @@ TEXTS["C08"] = {
 }
 TEXTS["C09"] = {
     "text": "Random histories of 40-200 operations (all pixel sizes, growing/shrinking images, alpha on/off, erroring calls, reset, clone, "
-            "back-end switches) on long-lived Resizers; every call is compared bit for bit with the same call on a fresh Resizer. The H3 "
+            "back-end switches) on long-lived Resizers, plus short histories with big images (intermediates of several MB, a retained buffer "
+            "beyond 64 MB); every call is compared bit for bit with the same call on a fresh Resizer. The H3 "
             "scratch hook proves that reuse without growth, growth and the misaligned-head path of align_to_mut (under Miri) were executed.",
     "design_ref": "DESIGN.md section 2, C09",
     "note": "Histories are sampled. The misaligned-head path is only reachable where Vec<u8> is not over-aligned (Miri).",
@@ -145,7 +153,8 @@ TEXTS["C15"] = {
     "text": "CropBox::fit_src_into_dst_size is called on all size quadruples <= 24 and 10^7 random quadruples up to 65 535 biased to "
             "near-equal aspect ratios; the returned box is checked to be inside the source exactly as the validator judges it, to have the "
             "destination aspect ratio, to span one dimension and to honour the clamped centering; 4*10^4 resizes with fit_into_destination "
-            "must not fail.",
+            "through the typed and the dynamic entry point (every size quadruple in 1..10 first) must not fail, must equal a resize with that "
+            "box given explicitly, and a Nearest resize of coordinate-tagged pixels must show the pixels under the centres of that box.",
     "design_ref": "DESIGN.md section 2, C15",
     "note": "NaN centering excluded as the property states.",
     "technique": "runtime monitoring of a pure function with an arithmetic oracle, exhaustive for small sizes",
@@ -154,14 +163,15 @@ TEXTS["C16"] = {
     "text": "Every table entry of both mappers, both directions and all four depth pairs is read through the public API (all component "
             "values at every component position, 1..4 components, two-image and in-place) and compared with the f64 transfer function; "
             "monotonicity, endpoints, alpha depth conversion at every row position, sRGB 8->16->8 identity and rejection of mismatched "
-            "arguments are checked. Exhaustive.",
+            "arguments are checked; two-image mappings also through cropped windows (CroppedImageMut / CroppedImage sources). Exhaustive.",
     "design_ref": "DESIGN.md section 2, C16",
     "note": "A neighbouring integer is accepted within 1e-4*max of a rounding tie because the tables are built in f32.",
     "technique": "exhaustive runtime enumeration against an f64 transfer-function oracle",
 }
 TEXTS["C17"] = {
     "text": "All 43 supported conversions: integer sources exhaustively, I32/F32 sources on boundary and 6*10^4 random values per block; "
-            "monotone, nominal endpoints, saturation of out-of-range floats, widen-then-narrow identity, rejection of mismatched images.",
+            "monotone, nominal endpoints, saturation of out-of-range floats, widen-then-narrow identity, rejection of mismatched images; the "
+            "same values in images 1..9 pixels wide (Image / ImageRef sources) and through cropped windows convert identically.",
     "design_ref": "DESIGN.md section 2, C17",
     "note": "Known finding D14 (U8/U16 -> I32 maximum not mapped to i32::MAX) is reported as KNOWN-FINDING; any other endpoint failure is a violation.",
     "technique": "runtime monitoring with order/endpoint oracles, exhaustive for integer sources",
